@@ -189,13 +189,13 @@ class Ctx:
         self.models.append({'module': module, 'cfg': cfg, 'expected_violation': what, 'wall_s': round(r.wall, 1)})
         return r
 
-    def validate(self, module, tracefile, cfg=None, env=None, chunk=2500, **kw):
+    def validate(self, module, tracefile, cfg=None, env=None, chunk=None, **kw):
         """Trace validation run.  Returns TLCResult; TLC failure => Inconclusive.  A file with more than `chunk` traces is
         validated in pieces (one JVM each): the Json module holds a whole file in memory, and the thorough tiers record
         tens of thousands of traces."""
         with open(tracefile) as f:
             nlines = sum(1 for _ in f)
-        if nlines > chunk:
+        if chunk and nlines > chunk:
             outs, wall, k = [], 0.0, 0
             with open(tracefile) as f:
                 part = []
